@@ -768,6 +768,27 @@ class VC(object):
         obj = resolve(func) if isinstance(func, str) else func
         self.run.expr_hooks.setdefault(_fkey(obj), []).append((re.compile(regex), handler))
 
+    def exec_slices(self, target, regex, local_vars):
+        """As exec_slice, for EVERY top-level statement of `target` whose source text matches `regex`, in source order, in one frame."""
+        import ast, re
+        from .interp import resolve, get_func_ast, Interp, Frame, _guess_defcls
+        fn = resolve(target) if isinstance(target, str) else target
+        fn = getattr(fn, '__func__', fn)
+        node, path, src = get_func_ast(fn)
+        pat = re.compile(regex, re.S)
+        frame = Frame(fn.__globals__, defcls=_guess_defcls(fn), fkey=_fkey(fn), fname=fn.__qualname__)
+        frame.locals.update(local_vars)
+        n = 0
+        for st in node.body:
+            if pat.search(ast.unparse(st)):
+                Interp(self.ctx, frame).exec(st)
+                n += 1
+        if not n:
+            raise Undecided('no statement of %s matches %r' % (target, regex))
+        if isinstance(target, str):
+            self.run.functions.setdefault(target, {'role': 'slices: ' + regex})
+        return frame.locals
+
     def exec_slice(self, target, regex, local_vars):
         """Execute, with the given local variables, the first top-level statement of `target` whose source text matches
         `regex` (mechanical extraction of one statement of a function that is otherwise out of reach; everything else of the
